@@ -25,8 +25,8 @@ PROPS = {}
 OBLIGATIONS = {}
 REPLAYERS = {}
 
-def obl(oid, fn, text, kind='proved', tier='quick', never=False):
-    OBLIGATIONS[oid] = {'prop': oid.split('.')[0], 'fn': fn, 'text': text, 'kind': kind, 'tier': tier, 'never': never}
+def obl(oid, fn, text, kind='proved', tier='quick', never=False, absent_ok=None):
+    OBLIGATIONS[oid] = {'prop': oid.split('.')[0], 'fn': fn, 'text': text, 'kind': kind, 'tier': tier, 'never': never, 'absent_ok': absent_ok}
 
 # --------------------------------------------------------------------------------------------
 UNITS['flag'] = dict(
@@ -126,3 +126,105 @@ PROPS['C13'] = dict(
     level='proof', units=['pipe'],
     trusted=L('A3', 'A4', 'A5', 'A10', 'A12') + ['"reader sees <= deliveries bytes and >= 1 since last drain" follows from ONE-ATTEMPT + kernel pipe/socket semantics (not machine-checked)'],
     explanation='Kani proves the trace contract of wake() and of the closure built by the real register_raw/register against a libc model with a ghost descriptor (valid?, socket?, O_NONBLOCK set?), for all fds, signals, return values and errnos.')
+
+# --------------------------------------------------------------------------------------------
+_CH_STUB = dict(panic_map=[(r'option::expect_failed', 'C08.NO-PANIC-EXPECT')])
+UNITS['channel'] = dict(
+    name='channel', engine='kani', crate='.', inject=[('src/low_level/channel.rs', K + 'channel.rs')], flags=['-Z', 'stubbing'],
+    harnesses={
+        'c06_bits': dict(props=['C06']),
+        'c06_seq_dequeue': dict(props=['C06'], auto_obl='C08.NO-PANIC', unwind_obl='C08.FROZEN', **_CH_STUB),
+        'c06_seq_enqueue': dict(props=['C06'], **_CH_STUB),
+        'c06_new': dict(props=['C06'], **_CH_STUB),
+        'c06_seq_send': dict(props=['C06', 'C07', 'C08'], auto_obl='C08.NO-PANIC', unwind_obl='C08.FROZEN', **_CH_STUB),
+        'c06_seq_recv': dict(props=['C06', 'C07', 'C08'], auto_obl='C08.NO-PANIC', unwind_obl='C08.FROZEN', **_CH_STUB),
+        'c07_drop_channel': dict(props=['C07']),
+        'c07_send_sync_bounds': dict(props=['C07']),
+        'c08_frozen_send': dict(props=['C06', 'C07', 'C08'], auto_obl='C08.NO-PANIC', unwind_obl='C08.FROZEN', **_CH_STUB),
+        'c08_frozen_recv': dict(props=['C06', 'C07', 'C08'], auto_obl='C08.NO-PANIC', unwind_obl='C08.FROZEN', **_CH_STUB),
+        'c08_rg_send_k2': dict(props=['C06', 'C07', 'C08'], auto_obl='C08.NO-PANIC', unwind_obl='C08.BOUNDED', **_CH_STUB),
+        'c08_rg_recv_k2': dict(props=['C06', 'C07', 'C08'], auto_obl='C08.NO-PANIC', unwind_obl='C08.BOUNDED', **_CH_STUB),
+        'c08_rg_send_k4': dict(props=['C06', 'C07', 'C08'], tier='thorough', auto_obl='C08.NO-PANIC', unwind_obl='C08.BOUNDED', **_CH_STUB),
+        'c08_rg_recv_k4': dict(props=['C06', 'C07', 'C08'], tier='thorough', auto_obl='C08.NO-PANIC', unwind_obl='C08.BOUNDED', **_CH_STUB),
+    })
+FQ = 'channel.rs: '
+obl('C06.BITS', FQ + 'get, set', 'field algebra of the packed queue, all u16 x idx<5 x v<=7, incl. positions 3-4')
+obl('C06.DEQ', FQ + 'dequeue', 'sequential: pop-front on every well-formed word; None iff empty, unchanged')
+obl('C06.ENQ', FQ + 'enqueue', 'sequential: push-back on every well-formed non-full word')
+obl('C06.NEW', FQ + 'Channel::new', 'empty=[1,2,3,4,5], full=[], cells None')
+obl('C06.SEND', FQ + 'Channel::send', 'from every invariant state (frozen env): first free slot gets exactly the value and is appended behind all queued values; no other cell touched')
+obl('C06.RECV', FQ + 'Channel::recv', 'from every invariant state (frozen env): oldest value returned, order of the rest kept, slot freed, None iff nothing queued')
+obl('C06.FULL-ONLY-WHEN-5', FQ + 'Channel::send', 'a send is discarded only if it observed the free queue empty (5 indices queued or in flight)')
+obl('C06.EMPTY-ONLY-WHEN-EMPTY', FQ + 'Channel::recv', 'None only if it observed the full queue empty')
+obl('C06.ATOMIC', FQ + 'enqueue, dequeue, send, recv', 'under arbitrary interference: every effect on a queue word is one successful CAS that is a pop-front/push-back of the expected value; a call has exactly the pops/pushes of its specification', never=False)
+obl('C06.OWN', FQ + 'enqueue', 'only an index this operation owns is enqueued')
+obl('C06.G-INV', FQ + 'send, recv', 'every step of the code preserves the channel invariant (well-formed words, disjoint index sets, full => cell Some)')
+obl('C06.NO-STORE', FQ + 'all', 'no plain store/swap on a queue word', never=True, absent_ok=r'Atomic :: < u16 > :: store -> u16_store')
+obl('C07.G-ACQ', FQ + 'dequeue', 'taking CAS has success ordering >= Acquire')
+obl('C07.G-REL', FQ + 'enqueue', 'publishing CAS has success ordering >= Release')
+obl('C07.EMPTY-MEANS-NONE', FQ + 'recv', 'an index goes back to `empty` only with its cell None')
+obl('C07.OWN-CELL', FQ + 'send, recv', 'cells are accessed only while their index is owned; exactly one cell access per effective call')
+obl('C07.DROP-ONCE', FQ + 'send', 'a discarded value is dropped exactly once')
+obl('C07.NO-EARLY-DROP', FQ + 'send, recv', 'successful send / recv drop nothing')
+obl('C07.TAKE', FQ + 'recv', 'value moved out, cell None afterwards')
+obl('C07.DROP-CHANNEL', FQ + 'drop glue of Channel', 'every stored value dropped exactly once')
+obl('C07.SENDSYNC', FQ + 'unsafe impl Send/Sync', 'bounds T: Send kept (type-checked)')
+obl('C08.FROZEN', FQ + 'send, recv, enqueue, dequeue', 'frozen environment, every invariant state (incl. nested-in-flight indices): all loops terminate within the unwinding bound (complete)')
+obl('C08.BOUNDED', FQ + 'send, recv', 'with interference before every access and <= K failed CAS: terminates within K+2 iterations', kind='bounded(K=2 quick, 4 thorough failed CAS per call)')
+obl('C08.NO-PANIC', FQ + 'send, recv', 'no panic, overflow, out-of-bounds from any invariant state')
+obl('C08.NO-PANIC-EXPECT', FQ + 'enqueue, recv', 'neither expect("No empty slot available") nor expect("Full slot with nothing in it") can fail (Kani reports both through core::option::expect_failed)', never=True)
+obl('C08.NO-LEAK-INDEX', FQ + 'send, recv', 'on return no index is held')
+obl('C08.RETRY-ONLY-ON-CAS-FAIL', FQ + 'send, recv', 'atomic ops = 1 load + (fails+1) CAS per queue operation: no waiting loop')
+_T = L('A1', 'A7', 'A8', 'A10')
+PROPS['C06'] = dict(level='proof', units=['channel'], trusted=_T + ['linearizability / per-producer order from C06.ATOMIC + sequential contracts is the lemma L-FIFO (argument in DESIGN.md, not machine-checked)'],
+    technique='function contracts + rely/guarantee environment stubs on the real channel.rs, Kani/CBMC',
+    explanation='Sequential FIFO contracts of get/set/enqueue/dequeue/send/recv proved from every invariant state; under an environment that havocs the shared words to any invariant state before every access, each effect of the real code is proved to be a single CAS that is a push/pop of the expected value.')
+PROPS['C07'] = dict(level='proof', units=['channel'], trusted=_T + ['happens-before itself is the C11 axiom (A1); proved: the code meets its premises (orderings, ownership)'],
+    technique='rely/guarantee ownership + ordering obligations and destructor-counting payload, Kani/CBMC',
+    explanation='Ownership of cells, Acquire/Release on every taking/publishing CAS, and exactly-once drop proved on the real code.')
+PROPS['C08'] = dict(level='proof', units=['channel'], trusted=_T,
+    technique='termination under frozen/budgeted environment with unwinding assertions + panic reachability, Kani/CBMC',
+    explanation='From every state satisfying the invariant (including suspended outer operations) send/recv terminate without panic; frozen environment complete, interference bounded by K failed CAS.')
+
+# --------------------------------------------------------------------------------------------
+UNITS['half_lock'] = dict(
+    name='half_lock', engine='kani', crate='signal-hook-registry', inject=[('signal-hook-registry/src/half_lock.rs', K + 'half_lock.rs')], flags=FFI,
+    scan=[K + 'libc_model.rs'],
+    harnesses={
+        'c01_read': dict(props=['C01', 'C03']),
+        'c01_update_seen': dict(props=['C01', 'C18']),
+        'c01_write_barrier_k3': dict(props=['C01', 'C18'], unwind_obl='C18.BARRIER-BOUNDED'),
+        'c18_quiescent': dict(props=['C18', 'C01'], unwind_obl='C18.QUIESCENT'),
+        'c01_store': dict(props=['C01', 'C18'], unwind_obl='C18.BARRIER-BOUNDED'),
+        'c01_write_guard': dict(props=['C01', 'C18']),
+    })
+FH = 'half_lock.rs: '
+obl('C01.R-ORDER', FH + 'HalfLock::read', 'ghost trace is exactly [load generation, fetch_add lock[g%2], load data] in this order, nothing else')
+obl('C01.R-SLOT', FH + 'HalfLock::read', 'the slot incremented is generation%2, by 1')
+obl('C01.R-SEQCST', FH + 'HalfLock::read, update_seen', 'all half-lock accesses SeqCst')
+obl('C01.R-PTR', FH + 'HalfLock::read', 'guard.data is the pointer loaded after the increment')
+obl('C01.R-DEC', FH + 'ReadGuard::drop', 'exactly one fetch_sub(1) on the slot that was incremented')
+obl('C01.U-STEP', FH + 'HalfLock::update_seen', 'one pass: one load per not-yet-drained slot')
+obl('C01.W-ZERO', FH + 'HalfLock::write_barrier', 'returns only after each slot was observed 0 since the swap')
+obl('C01.S-ORDER', FH + 'WriteGuard::store', 'swap(new) first; free(old) last and only after the barrier (both zero seen, flip done)')
+obl('C01.S-FREE-ONCE', FH + 'WriteGuard::store', 'exactly the old box is freed, exactly once')
+obl('C01.S-VIEW', FH + 'WriteGuard::store', 'guard and later readers see the new snapshot')
+obl('C01.WG-LOAD', FH + 'HalfLock::write', 'one pointer load, no other effect')
+obl('C01.NO-STORE', FH + 'all', 'counters/generation never plainly stored', never=True, absent_ok=r'Atomic :: < usize > :: store -> usize_store')
+obl('C01.S-SWAP', FH + 'all', 'data pointer never plainly stored', never=True, absent_ok=r'Atomic :: < \* mut T > :: store -> ptr_store')
+obl('C03.READ-WAITFREE', FH + 'HalfLock::read, ReadGuard::drop', 'read side = 3+1 atomic ops, never frees / yields / spins / locks')
+obl('C18.STICKY', FH + 'HalfLock::update_seen', "seen'[i] == seen[i] || loaded_i == 0, full domain")
+obl('C18.FLIP-ONCE', FH + 'HalfLock::write_barrier', 'exactly one odd SeqCst generation increment')
+obl('C18.FLIP-BEFORE-WAIT', FH + 'HalfLock::write_barrier', 'flip precedes the waiting loop')
+obl('C18.QUIESCENT', FH + 'HalfLock::write_barrier', 'counters 0 and no interference: returns after one pass, no yield/spin (complete, unwinding assertions)')
+obl('C18.BARRIER-BOUNDED', FH + 'HalfLock::write_barrier, WriteGuard::store', 'terminates within K+2 passes when at most K loads answer non-zero', kind='bounded(K=3 non-zero answers; step proved unbounded by C18.STICKY)')
+obl('C18.POISON-OK', FH + 'HalfLock::write', 'returns a working guard when the mutex is poisoned (native stand-in: Kani has no unwinding)', kind='bounded(native execution; the obligation has no input domain)')
+UNITS['native_half_lock'] = dict(name='half_lock_poison', engine='static', module='native_unit', entry='run_native', source='/verif/native/half_lock_poison.rs')
+obl('C18.MUTEX-HELD', FH + 'HalfLock::write', 'mutex held while the guard lives')
+obl('C18.MUTEX-RELEASED', FH + 'WriteGuard drop glue', 'mutex released on guard drop')
+PROPS['C01'] = dict(level='proof', units=['half_lock'], trusted=L('A1', 'A2', 'A7', 'A8', 'A9', 'A10'),
+    technique='trace contracts on the real half_lock.rs under an environment that havocs counters and generation before every access, Kani/CBMC',
+    explanation='Reader protocol order, barrier post-condition (both slots seen zero after the swap), swap-barrier-free order and free-exactly-once are proved on the real code for arbitrary counter/generation values; the whole-program quiescence theorem follows by the L-RCU argument in DESIGN.md.')
+PROPS['C18'] = dict(level='other', units=['half_lock', 'native_half_lock'], trusted=L('A1', 'A2', 'A7', 'A8', 'A10') + ['fairness-based liveness (every fair execution terminates) is not decidable by contracts; proved are the obligations the termination argument rests on'],
+    technique='progress obligations (sticky seen flags, single flip before waiting, poison tolerance, quiescent termination) as contracts on the real half_lock.rs, Kani/CBMC',
+    explanation='Contracts prove the safety-shaped obligations that the termination argument needs; termination itself is proved for a quiescent environment (complete) and for <= K non-zero answers (bounded).')
